@@ -65,6 +65,10 @@ def values(depth=3, width=4, hostile=False):
         strdict(sub, width + 1, hostile),
         st.lists(st.tuples(hashable(1), sub).map(list), max_size=width).map(lambda l: ["dict", l]),
         st.lists(st.tuples(hashable(0), sub).map(list), max_size=3).map(lambda l: ["ddict", l]),
+        # other standard-library containers: inferred as their plain class (not descended into) on the pinned tree
+        st.one_of(st.lists(sub, max_size=3).map(lambda l: ["deque", l]),
+                  st.lists(st.tuples(st.sampled_from(IDENT_KEYS[:3]).map(lit), sub).map(list), max_size=2, unique_by=lambda kv: kv[0][1]).map(lambda l: ["odict", l]),
+                  st.lists(hashable(0), max_size=3).map(lambda l: ["fset", l])),
     )
 
 
@@ -169,6 +173,12 @@ def build(spec):
         for a, b in spec[1]:
             d[build(a)] = build(b)
         return d
+    if k == "deque":
+        return collections.deque(build(e) for e in spec[1])
+    if k == "odict":
+        return collections.OrderedDict((build(a), build(b)) for a, b in spec[1])
+    if k == "fset":
+        return frozenset(build(e) for e in spec[1])
     raise ValueError(spec)
 
 
